@@ -32,7 +32,7 @@ class Check:
     rule = ('every document of the C08 generator plus Unicode documents, read from a file, a str, bytes and a fake S3 object, in '
             'UTF-8, ISO-8859-1 and UTF-16 encodings (with XML declaration) where representable: class and serialisation must agree; '
             'collections through from_strings / from_files / from_s3; MosReader metadata and repeated restores; fake paginators with '
-            '0..5 [0..20] pages, keys with and without the suffix, pages without Contents at every position, empty prefix. '
+            '0..5 [0..20] pages, keys with and without the suffix, pages without Contents at every position, empty / folder prefixes and prefixes cut out of a key at any position (the fake lists only keys under the prefix, like S3). '
             'distinct by (kind, encoding, outcome)')
 
     def matches_known(self, k, v):
@@ -116,9 +116,16 @@ class Check:
                         pages.append({'Contents': [{'Key': x} for x in ks]})
                         keys += ks
                 suffix = rng.choice(['.mos.xml', '.xml', '', '.txt'])
+                prefix = rng.choice([None, '', 'pre/'])
+                if keys and rng.random() < 0.4:
+                    # a prefix cut out of a key at any position (it may overlap the suffix, or be the whole key)
+                    k0 = rng.choice(keys)
+                    prefix = k0[:rng.randrange(0, len(k0) + 1)]
                 fakes3.install(s3mod, pages=pages, objects={})
-                got = s3mod.get_mos_files('bucket', rng.choice([None, '', 'pre/']), suffix=suffix)
+                got = s3mod.get_mos_files('bucket', prefix, suffix=suffix)
                 n += 1
+                pages = fakes3.filter_pages(pages, prefix)
+                keys = [x for x in keys if x.startswith(prefix or '')]
                 want = [x for x in keys if x.endswith(suffix)]
                 sigs.add(('listing', len(pages), len(want), got == want))
                 line = 'list %s %d %s' % (X.s_tok(suffix), len(pages), ' '.join(
@@ -127,7 +134,7 @@ class Check:
                 model_keys = [X.tok_s(t) for t in mo[1:]]
                 if got != want:
                     vio.append({'what': 'S3 listing returned %d keys, %d keys under the prefix have the suffix' % (len(got), len(want)),
-                                'case': {'kind': 'listing', 'pages': pages, 'suffix': suffix}, 'impl': got, 'expected': want})
+                                'case': {'kind': 'listing', 'pages': pages, 'suffix': suffix, 'prefix': prefix}, 'impl': got, 'expected': want})
                 if got != model_keys:
                     dis.append({'case': {'kind': 'listing', 'pages': pages, 'suffix': suffix}, 'impl': got, 'model': model_keys, 'explained': got != want})
                 if len(samples) < 2 and len(pages) > 2:
@@ -147,7 +154,7 @@ class Check:
         try:
             if case.get('kind') == 'listing':
                 fakes3.install(s3mod, pages=case['pages'], objects={})
-                got = s3mod.get_mos_files('bucket', 'pre/', suffix=case['suffix'])
+                got = s3mod.get_mos_files('bucket', case.get('prefix', 'pre/'), suffix=case['suffix'])
                 want = [c['Key'] for p in case['pages'] for c in p.get('Contents', []) if c['Key'].endswith(case['suffix'])]
                 return {'violation': got != want, 'got': got, 'want': want}
             if case.get('kind') == 'source':
